@@ -250,6 +250,50 @@ theorem cfb_dec_entries (C : Cipher) (w : Nat) (es : List Entry) (iv : Bytes)
     runEntries (Cfb.decBlock C) (Cfb.decPar C) iv es = foldBlocks (Cfb.decBlock C) iv (es.map Entry.blocks).flatten :=
   entries_eq_one_at_a_time w _ _ (fun s ch _ => C03.cfb_decPar_eq_fold C ch s) es iv hw
 
+/-- the same for keystream cores: a caller-written closure for `StreamCipherCore::process_with_backend` may call
+    `gen_ks_block`, `gen_par_ks_blocks` (exactly `ParBlocksSize` blocks) and `gen_tail_blocks` (default body: one
+    `gen_ks_block` per block) in any order — e.g. a batch, a single block, another batch. -/
+inductive KsEntry
+  | one                  -- `gen_ks_block`
+  | par                  -- `gen_par_ks_blocks`
+  | tail (n : Nat)       -- `gen_tail_blocks` on `n` blocks
+
+def KsEntry.count (pw : Nat) : KsEntry → Nat
+  | .one => 1
+  | .par => pw
+  | .tail n => n
+
+def runKs {σ : Type} (K : Core σ) (pw : Nat) : σ → List KsEntry → List Bytes × σ
+  | s, [] => ([], s)
+  | s, e :: es =>
+    let r := match e with
+      | .one => let q := K.genBlock s; ([q.1], q.2)
+      | .par => K.genPar pw s
+      | .tail n => genSeq K n s
+    let r2 := runKs K pw r.2 es
+    (r.1 ++ r2.1, r2.2)
+
+theorem ks_entries_eq_seq {σ : Type} (K : Core σ) (pw : Nat) (hpar : ∀ s, K.genPar pw s = genSeq K pw s) :
+    ∀ (es : List KsEntry) (s : σ), runKs K pw s es = genSeq K ((es.map (KsEntry.count pw)).sum) s := by
+  intro es
+  induction es with
+  | nil => intro s; rfl
+  | cons e es ih =>
+    intro s
+    simp only [runKs, List.map_cons, List.sum_cons, genSeq_add, ih]
+    cases e with
+    | one => simp [KsEntry.count, genSeq]
+    | par => simp only [KsEntry.count, hpar]
+    | tail n => simp only [KsEntry.count]
+
+theorem ctr_ks_entries (C : Cipher) (f : Spec.Flavor) (pw : Nat) (es : List KsEntry) (s : Ctr.St) :
+    runKs (Ctr.core C f) pw s es = genSeq (Ctr.core C f) ((es.map (KsEntry.count pw)).sum) s :=
+  ks_entries_eq_seq _ pw (fun s => Ctr.genPar_eq_seq C f pw s) es s
+
+theorem belt_ks_entries (C : Cipher) (pw : Nat) (es : List KsEntry) (s : Belt.St) :
+    runKs (Belt.core C) pw s es = genSeq (Belt.core C) ((es.map (KsEntry.count pw)).sum) s :=
+  ks_entries_eq_seq _ pw (fun s => Belt.genPar_eq_seq C pw s) es s
+
 /-! ### non-vacuity: 5 blocks as (2 + 3) under w = 2 versus (1 + 4) under w = 3 feed the same blocks -/
 example : ([Call.many [[1], [2]], .many [[3], [4], [5]]].map Call.blocks).flatten
     = ([Call.one [1], .many [[2], [3], [4], [5]]].map Call.blocks).flatten := by decide
